@@ -215,3 +215,29 @@ Example ex_keep_rows_rejected : individual_keep_rows false [0; 1] [(true, [-1; 5
 Proof. reflexivity. Qed.
 Example ex_two_site : two_site_scratch 3 [0; 2] [1] = Ok ([0; 1; 2], 3).
 Proof. reflexivity. Qed.
+
+(* ---- index copy: stale indexes ---- *)
+Theorem guard_implies_in_bounds_copy_indexes index_num_edges edges_num_rows :
+  0 <= index_num_edges -> copy_indexes true index_num_edges edges_num_rows <> OOB.
+Proof.
+  intro H. unfold copy_indexes. simpl.
+  destruct (index_num_edges =? edges_num_rows) eqn:E; simpl; [|discriminate].
+  apply Z.eqb_eq in E. subst edges_num_rows.
+  apply bind_not_OOB; [apply read_prefix_not_OOB; [lia | rewrite zlen_alloc by lia; lia]|].
+  intros _ _. apply read_prefix_not_OOB; [lia | rewrite zlen_alloc by lia; lia].
+Qed.
+
+(* seeded change C09-9: the count comparison dropped from the guard *)
+Theorem copy_indexes_pointer_only_guard_mutant_refuted :
+  exists index_num_edges edges_num_rows, 0 <= index_num_edges < edges_num_rows /\
+    copy_indexes false index_num_edges edges_num_rows = OOB.
+Proof. exists 2, 3. split; [lia | vm_compute; reflexivity]. Qed.
+
+(* a shrunken edge table is harmless even without the comparison: the overrun needs growth *)
+Theorem copy_indexes_shrunk_in_bounds b index_num_edges edges_num_rows :
+  0 <= edges_num_rows <= index_num_edges -> copy_indexes b index_num_edges edges_num_rows <> OOB.
+Proof.
+  intro H. unfold copy_indexes. destruct (b && _); [discriminate|].
+  apply bind_not_OOB; [apply read_prefix_not_OOB; [lia | rewrite zlen_alloc by lia; lia]|].
+  intros _ _. apply read_prefix_not_OOB; [lia | rewrite zlen_alloc by lia; lia].
+Qed.
